@@ -598,7 +598,9 @@ tdigest<T, A> tdigest<T, A>::deserialize_compat(const void* bytes, size_t size, 
 
 template<typename T, typename A>
 bool tdigest<T, A>::is_single_value() const {
-  return get_total_weight() == 1;
+  // a value still waiting in the buffer is not a centroid yet: the short single-value form would lose
+  // the pending merge (and with it the merge direction the restored sketch continues with)
+  return centroids_weight_ == 1 && buffer_.empty();
 }
 
 template<typename T, typename A>
